@@ -33,13 +33,13 @@ PROPS = {
         'design_ref': 'DESIGN.md §5 U5, §6 C05',
     },
     'C13': {
-        'verus': ['tokenizer_ranges', 'source_map'],
+        'verus': ['tokenizer_ranges', 'source_map', 'data_parser'],
         'kani': ['tokenizer_matchers'],
         'level': 'proof',
         'design_ref': 'DESIGN.md §5 U11/K5, §6 C13',
     },
     'C12': {
-        'verus': ['line_cruncher', 'tokenizer_ranges'],
+        'verus': ['line_cruncher', 'tokenizer_ranges', 'data_parser'],
         'kani': ['tokenizer_matchers'],
         'level': 'proof',
         'design_ref': 'DESIGN.md §5 U4/K5, §6 C12',
@@ -124,7 +124,7 @@ UNDECIDED = {
     'C03': ["statement dispatch as a whole, the IF false-branch scan's choice of clause, FOR/NEXT arithmetic in doubles (end_loop), DIM/array statements: undecided; decided pieces of the anchored mechanisms only - this is not a differential check against a reference interpreter", "IF/ELSE interplay: decided for GOSUB (a GOSUB directly followed by ELSE does not return in front of it); a FOR in a THEN clause that has an ELSE is not covered"],
     'C05': ["SourceFileAnalyzer::run / analyze_lines / populate_symbol_access_warnings are proved (after normalisations N9, N10) to keep every stored line mapped to the file line that defined it, which makes the `unwrap()` and the `panic!` of the mapping step unreachable; the whole statement and expression analyzer (statement_analyzer.rs, expression_analyzer.rs: 38 functions, unit analyzer_kinds) is proved to keep the stored lines, keep the cursor inside its stored line and record only token positions of stored lines. ASSUMED: the links through the two borrowing temporaries; what an analysis ERROR carries (not the DATA-coercion kind; an explicit position is a token position) - Verus does not model the error conversion done by the `?` operator, so errors that went through `check_number()?` are opaque; the tokenizer as the analyzer calls it (one byte range per token); the symbol table (HashMap entry API) records the position it is given and every warning names a recorded position", "SourceFileAnalyzer::analyze (split / map / collect), one token list per file line, and that the per-line lists carry the tokenizer's ranges: not stated", "that registered token ranges lie within the line on char boundaries is C13's business (partly decided there)"],
     'C13': ["the complex matchers (keywords via chomp_any_keyword, string literals, numerals, REM, DATA, identifiers) enter as ASSUMED contracts (decline without moving / consume a non-empty in-line stretch / fail without moving with an in-line position); chomp_keyword and chomp_number are checked against them by Kani for bounded input lengths (quick tier), chomp_string and chomp_remark in the thorough tier (ASCII, <= 6 bytes); the DATA matcher not at all", "character boundaries, ranges ENDING on a non-blank byte for every token kind, REM/DATA extending to the end of their text, and the re-tokenization clause (tokenizing the text of a range yields that one token) are undecided", "remaining_tokens / remaining_tokens_and_ranges (for-loops over `&mut self` as an iterator) are outside Verus; the ordering lemma is stated for two consecutive next() calls"],
-    'C12': ["identifier scanning with keyword lookahead, numerals, DATA items (String::from_utf8, str::parse, trim) and the composition in Tokenizer::next: undecided, including the `DATA \"a\" :` defect"],
+    'C12': ["identifier scanning with keyword lookahead, numerals, the DATA branch of the tokenizer (String::from_utf8 of the rest of the line) and the composition in Tokenizer::next: undecided", "DATA items: decided for whitespace in front of and behind items relative to the assumed meaning of str::trim / str::parse; a parser change that uses a std method without a specification here (e.g. trim_matches with a pattern) is undecided, not detected"],
     'C06': ["statement-level agreement (assignment / FOR / NEXT / READ kind checks in statement_analyzer.rs vs statement.rs) and the converse direction need both evaluators executed: undecided", "operand parsing below the unary tier (terms, calls, array subscripts) is proved to only move the cursor forward on its line; the kinds it returns for terms are not specified", "termination of the tier loops is not claimed (exec_allows_no_decreases_clause)"],
     'C08': ["that a REJECTED reply asks again at the very same INPUT statement (and not at a later INPUT of the line) needs a token-level specification of what an lvalue may contain (no INPUT token): not stated - a change that rewinds from further down the line is not reported", "THEN/ELSE interplay: decided as `a resumed INPUT is not left in front of an ELSE` (an ELSE reached as a statement stays UNEXPECTED TOKEN, as the suite requires for multi-statement THEN clauses)", "EXTRA IGNORED / REENTER records are appended by evaluate_input_statement (proved to keep the state well formed) but their exact conditions are not specified here", "reply parsing (parse_data_until_colon, the DATA item parser) is proved never to return an empty list and never to claim more bytes than the text has (unit data_parser); which items it returns is an uninterpreted function of the text"],
     'C19': ["the page script (abasic-web/ts/main.ts) is TypeScript: its protocol is an assumption, transliterated in L_page_protocol; the start-up loader (start_evaluating per line with no error check in between) violates the adapter's precondition when a line fails - outside this check's reach", "the core side (start_evaluating / continue_evaluating / command words) is proved in unit interp_api and enters the adapter unit as stubs with the same contract text", "output record text (Display) and error text + caret: fmt, undecided"],
@@ -150,5 +150,5 @@ GLOBAL_TRUSTED = [
     'Verus 0.2026.09.13 + bundled Z3; vstd specifications of Vec/Option/Result/HashMap/BTreeSet',
     'Kani 0.68.0 + CBMC 6.11 + CaDiCaL; rustc front ends of both tools',
     'machine integers: overflow is a failed obligation (debug-profile semantics of the test suite)',
-    'extraction: items are cut verbatim from /repo each run; normalisations N0-N10 are listed with counts',
+    'extraction: items are cut verbatim from /repo each run; normalisations N0-N11 are listed with counts',
 ]
